@@ -380,7 +380,10 @@ class _SktimeForecaster(BaseForecaster):
                 f"`update` is called."
             )
             # refit with updated data, not only passed data
-            self.fit(self._y, self._X, self.fh)
+            # `fh` is optional at this point (it may only be passed to `predict`
+            # later), so refit like a new forecaster with whatever `fh` is known
+            self._is_fitted = False
+            self.fit(self._y, self._X, self._fh)
         return self
 
     def update_predict(
